@@ -1,9 +1,9 @@
 import MtxVerif.Model.C12
-import MtxVerif.Gen.C11
+import MtxVerif.Gen.C12
 open MtxVerif MtxVerif.C12
 
 /-- the clone shares `OptionalPath.Values` with the running configuration iff `deepClone` has no Interface case -/
-def shared : Bool := !MtxVerif.Gen.C11.caseInterface
+def shared : Bool := !MtxVerif.Gen.C12.caseInterface
 
 structure D where
   code : St := {}          -- state of the model of the code
